@@ -578,3 +578,81 @@ func init() {
 			return obs
 		}})
 }
+
+func init() {
+	register(&Rule{ID: "ARITY.shared-skip-set", Floor: 3,
+		Doc: "the three arity analyzers (builtin-arity, if-arity, user-arity) consult the same set of excluded nodes: each one's Run computes aritySkipNodes over the pass's expressions and returns early for a node in that set — a list that is syntax (a formals list, a binding entry, a clause) is not a call for any of them (sibling agreement; found if-arity reporting the formals list `(if then else)`)",
+		Run: func(c *Ctx) []Obligation {
+			p := c.Pkg("lint")
+			skipFn := c.LookupPkgFunc("lint.aritySkipNodes")
+			if p == nil || skipFn == nil {
+				return []Obligation{anchorMissing("ARITY.shared-skip-set", "lint / aritySkipNodes")}
+			}
+			info := p.TypesInfo
+			var obs []Obligation
+			for _, name := range []string{"AnalyzerBuiltinArity", "AnalyzerIfArity", "AnalyzerUserArity"} {
+				var lit *ast.FuncLit
+				for _, f := range p.Syntax {
+					ast.Inspect(f, func(n ast.Node) bool {
+						vs, ok := n.(*ast.ValueSpec)
+						if !ok || len(vs.Names) != 1 || vs.Names[0].Name != name {
+							return true
+						}
+						ast.Inspect(vs, func(m ast.Node) bool {
+							if kv, ok := m.(*ast.KeyValueExpr); ok {
+								if id, ok := kv.Key.(*ast.Ident); ok && id.Name == "Run" {
+									lit, _ = kv.Value.(*ast.FuncLit)
+								}
+							}
+							return true
+						})
+						return false
+					})
+				}
+				o := Obligation{Rule: "ARITY.shared-skip-set", Func: "lint." + name, Construct: "consults the skip set", Nontrivial: true}
+				if lit == nil {
+					o.Verdict, o.Detail = Undecided, "analyzer not found"
+					obs = append(obs, o)
+					continue
+				}
+				o.Pos = c.Pos(lit.Pos())
+				// skip := aritySkipNodes(..) ; and an `if skip[X] { return }` inside the walk callback
+				var skipObj types.Object
+				ast.Inspect(lit.Body, func(n ast.Node) bool {
+					if as, ok := n.(*ast.AssignStmt); ok && len(as.Lhs) == 1 && len(as.Rhs) == 1 {
+						if ce, ok := ast.Unparen(as.Rhs[0]).(*ast.CallExpr); ok && originOf(Callee(info, ce)) == skipFn {
+							skipObj = identObj(info, as.Lhs[0])
+						}
+					}
+					return true
+				})
+				guarded := false
+				if skipObj != nil {
+					ast.Inspect(lit.Body, func(n ast.Node) bool {
+						is, ok := n.(*ast.IfStmt)
+						if !ok || len(is.Body.List) == 0 {
+							return true
+						}
+						uses := false
+						ast.Inspect(is.Cond, func(m ast.Node) bool {
+							if ie, ok := m.(*ast.IndexExpr); ok && identObj(info, ie.X) == skipObj {
+								uses = true
+							}
+							return true
+						})
+						if _, isRet := is.Body.List[len(is.Body.List)-1].(*ast.ReturnStmt); uses && isRet {
+							guarded = true
+						}
+						return true
+					})
+				}
+				if guarded {
+					o.Verdict, o.Detail = Proved, "computes aritySkipNodes and returns early for an excluded node"
+				} else {
+					o.Verdict, o.Detail = Violated, name+" does not consult aritySkipNodes: a list that is syntax, not a call (e.g. the formals list of (lambda (if then else) ...)), is reported as a wrong-arity call"
+				}
+				obs = append(obs, o)
+			}
+			return obs
+		}})
+}
